@@ -436,3 +436,13 @@ Proof.
   intros W1 W2 H1 H2 H3 H4 H5 H6 H7 H8 H9 H10. rewrite (bytes_roundtrip rc e m1 W1), (bytes_roundtrip rc e m2 W2).
   unfold dump_of_model. rewrite H1, H2, H3, H4, H5, H6, H7, H8, H9, H10. reflexivity.
 Qed.
+
+(* ---------------------------------------------------------------- ip / sp by field name *)
+Lemma ctx_regs_by_name arch : ctx_regs arch = ctx_regs_named arch.
+Proof.
+  unfold ctx_regs, ctx_regs_named.
+  destruct ((arch =? 0) || (arch =? 10)); [vm_compute; reflexivity|].
+  destruct (arch =? 9); [vm_compute; reflexivity|]. destruct (arch =? 5); [vm_compute; reflexivity|].
+  destruct (arch =? 12); [vm_compute; reflexivity|]. destruct (arch =? 32771); [vm_compute; reflexivity|].
+  destruct (arch =? 1); [vm_compute; reflexivity|reflexivity].
+Qed.
